@@ -234,4 +234,110 @@ theorem torn_final_header_datasize (api : Api) (o : WOpts) (roots : Option (List
   have := hwf.dOff.1
   show 0 < H.dataOffset + n % 256 ^ (j - 24)
   omega
+/-- `resumeCore_finalized_file` with ANY bytes after the payload (index, padding, nothing at all). -/
+theorem resumeCore_finalized_any_tail (api : Api) (o : WOpts) (roots : Option (List Cid)) (log : List Block)
+    (fi : Bool) (post : Bytes) (hv2 : o.v1 = false)
+    (hwf : (CarHeader.mk roots 1).wf) (hmax : (encodeHeaderBody ⟨roots, 1⟩).length ≤ o.maxHeader)
+    (hmax32 : (encodeHeaderBody ⟨roots, 1⟩).length ≤ 32 * 2 ^ 20)
+    (lok : LayoutOK o.dataPad o.indexPad (payload roots log).length)
+    (hlog : ∀ b ∈ log, b.cid.wf ∧ b.cid.digest.length ≤ maxDigestAlloc ∧ b.cid.byteLen + b.data.length < 2 ^ 63) :
+    resumeCore api o roots ((pragma ++ ((finalHeader o.dataPad o.indexPad (payload roots log).length true fi).bytes ++
+          (zeros o.dataPad ++ (payload roots log ++ post)))))
+      = ([.truncate (51 + o.dataPad + (payload roots log).length)] ++ headerEvs {},
+         .ok { api := api, file := o.filePrefix (zeros 40) ++ payload roots log, base := o.base,
+               pos := (payload roots log).length, idx := insertAll [] (headerSize ⟨roots, 1⟩) log, roots := roots }) := by
+  have h63 : (encodeHeaderBody ⟨roots, 1⟩).length < 2 ^ 63 := by
+    have : (32 : Nat) * 2 ^ 20 < 2 ^ 63 := by decide
+    omega
+  have hp := payload_length_pos roots log
+  have hfw := finalHeader_wf o.dataPad o.indexPad (payload roots log).length true fi hp lok
+  have hplen := o.filePrefix_length (zeros 40) (by simp [zeros])
+  have hbase : o.base = 51 + o.dataPad := by simp [WOpts.base, hv2]
+  have hpre : o.filePrefix (zeros 40) = pragma ++ zeros 40 ++ zeros o.dataPad := by simp [WOpts.filePrefix, hv2]
+  have hloop := resumeLoop_sections o.zeroEOF log (encodeHeader ⟨roots, 1⟩) []
+      ((encodeHeader ⟨roots, 1⟩ ++ sectionsBytes log).length + 1)
+      (by have := sectionsBytes_length_ge log; simp only [List.length_append]; omega) hlog
+  -- shape of the file
+  have hfile : (pragma ++ ((finalHeader o.dataPad o.indexPad (payload roots log).length true fi).bytes ++
+          (zeros o.dataPad ++ (payload roots log ++ post))))
+      = pragma ++ ((finalHeader o.dataPad o.indexPad (payload roots log).length true fi).bytes ++
+          (zeros o.dataPad ++ (payload roots log ++ post))) := by
+    simp [layoutV2]
+  have hdrop11 : ((pragma ++ ((finalHeader o.dataPad o.indexPad (payload roots log).length true fi).bytes ++
+          (zeros o.dataPad ++ (payload roots log ++ post))))).drop 11
+      = (finalHeader o.dataPad o.indexPad (payload roots log).length true fi).bytes ++
+          (zeros o.dataPad ++ (payload roots log ++ post)) := by
+    rw [hfile]; exact List.drop_left' (by decide)
+  have hprelen : (pragma ++ ((finalHeader o.dataPad o.indexPad (payload roots log).length true fi).bytes
+      ++ zeros o.dataPad)).length = 51 + o.dataPad := by
+    simp [V2Header.bytes_length, zeros_length, pragma, pragmaBody, keyVersion]; omega
+  have hdropb : ((pragma ++ ((finalHeader o.dataPad o.indexPad (payload roots log).length true fi).bytes ++
+          (zeros o.dataPad ++ (payload roots log ++ post))))).drop o.base
+      = payload roots log ++ post := by
+    rw [hfile, hbase]
+    have e : pragma ++ ((finalHeader o.dataPad o.indexPad (payload roots log).length true fi).bytes ++
+          (zeros o.dataPad ++ (payload roots log ++ post)))
+        = (pragma ++ ((finalHeader o.dataPad o.indexPad (payload roots log).length true fi).bytes ++ zeros o.dataPad))
+          ++ (payload roots log ++ post) := by simp
+    rw [e, List.drop_left' hprelen]
+  -- the two mutations
+  have htrunc : Car.truncate ((pragma ++ ((finalHeader o.dataPad o.indexPad (payload roots log).length true fi).bytes ++
+          (zeros o.dataPad ++ (payload roots log ++ post)))))
+        (51 + o.dataPad + (payload roots log).length)
+      = pragma ++ (finalHeader o.dataPad o.indexPad (payload roots log).length true fi).bytes
+          ++ (zeros o.dataPad ++ payload roots log) := by
+    have e : (pragma ++ ((finalHeader o.dataPad o.indexPad (payload roots log).length true fi).bytes ++
+          (zeros o.dataPad ++ (payload roots log ++ post))))
+        = (pragma ++ (finalHeader o.dataPad o.indexPad (payload roots log).length true fi).bytes
+            ++ (zeros o.dataPad ++ payload roots log)) ++ post := by
+      rw [hfile]; simp
+    have hl : (pragma ++ (finalHeader o.dataPad o.indexPad (payload roots log).length true fi).bytes
+            ++ (zeros o.dataPad ++ payload roots log)).length = 51 + o.dataPad + (payload roots log).length := by
+      simp [V2Header.bytes_length, zeros_length, pragma, pragmaBody, keyVersion]; omega
+    rw [e, ← hl, truncate_prefix]
+  have hmut : applyWrites ((pragma ++ ((finalHeader o.dataPad o.indexPad (payload roots log).length true fi).bytes ++
+          (zeros o.dataPad ++ (payload roots log ++ post)))))
+        ([.truncate (51 + o.dataPad + (payload roots log).length)] ++ headerEvs {})
+      = o.filePrefix (zeros 40) ++ payload roots log := by
+    rw [applyWrites_append]
+    have : applyWrites ((pragma ++ ((finalHeader o.dataPad o.indexPad (payload roots log).length true fi).bytes ++
+          (zeros o.dataPad ++ (payload roots log ++ post)))))
+        [.truncate (51 + o.dataPad + (payload roots log).length)]
+        = pragma ++ (finalHeader o.dataPad o.indexPad (payload roots log).length true fi).bytes
+          ++ (zeros o.dataPad ++ payload roots log) := by
+      simp only [applyWrites, List.foldl_cons, List.foldl_nil, WriteEv.apply]; exact htrunc
+    rw [this, headerEvs_apply _ _ (V2Header.bytes_length _), zeroHeader_bytes, hpre]; simp
+  have hdrop2 : (o.filePrefix (zeros 40) ++ payload roots log).drop o.base = payload roots log :=
+    List.drop_left' hplen
+  have hoff : (finalHeader o.dataPad o.indexPad (payload roots log).length true fi).dataOffset = 51 + o.dataPad := by
+    simp [finalHeader]
+  have hsz : (finalHeader o.dataPad o.indexPad (payload roots log).length true fi).dataSize = (payload roots log).length := by
+    simp [finalHeader]
+  have hio : (finalHeader o.dataPad o.indexPad (payload roots log).length true fi).indexOffset
+      = 51 + o.dataPad + (payload roots log).length + o.indexPad := by simp [finalHeader]
+  unfold resumeCore
+  simp only
+  rw [hfile, readHeader_pragma _ _ (by decide)]
+  rw [← hfile, hdrop11, readV2Header_bytes _ hfw]
+  simp only [hv2, Bool.false_eq_true, and_false, not_false_eq_true, and_self, or_true, not_true_eq_false,
+    ↓reduceIte, true_and, hoff, hsz, hio, hbase]
+  have c1 : ¬ (51 + o.dataPad ≠ 0 ∧ 51 + o.dataPad ≠ 51 + o.dataPad) := by omega
+  have c2 : ¬ (51 + o.dataPad ≠ 0 ∧ 51 + o.dataPad + (payload roots log).length + o.indexPad
+      < 51 + o.dataPad + (payload roots log).length) := by omega
+  have c3 : (51 + o.dataPad ≠ 0) := by omega
+  simp only [c1, c2, c3, ↓reduceIte, ne_eq, not_false_eq_true]
+  rw [← hbase, hdropb]
+  simp only [payload, List.append_assoc]
+  rw [readHeader_encode _ ⟨roots, 1⟩ _ hwf hmax h63]
+  simp only [not_true_eq_false, CarHeader.rootList, rootsMatch_refl, Bool.not_true,
+    Bool.false_eq_true, or_self, ↓reduceIte, headerSize]
+  have hmut' := hmut
+  simp only [payload, List.append_assoc, hbase] at hmut' hdrop2
+  rw [hbase]
+  rw [hmut', hdrop2]
+  rw [hloop]
+  have c4 : ¬ (51 + o.dataPad + (encodeHeader ⟨roots, 1⟩ ++ sectionsBytes log).length + o.indexPad
+      < 51 + o.dataPad + (encodeHeader ⟨roots, 1⟩ ++ sectionsBytes log).length) := by omega
+  simp only [and_false, ↓reduceIte, true_and, c4]
+
 end Car
